@@ -89,6 +89,8 @@ func c01MutationOf(quals [][]byte, nowMs int64, nfam int, kindSet int) mMut {
 	kind := 0
 	if kindSet == 1 {
 		kind = []int{0, 2, 4}[vChoice("mut.kind", 0, 2)]
+	} else if kindSet == 2 {
+		kind = 0 // SetCell only
 	} else {
 		kind = vChoice("mut.kind", 0, 4)
 	}
@@ -316,7 +318,7 @@ func c01Keys(name string, n, maxLen int) [][]byte {
 
 // c01Seed stores an arbitrary valid pre-state directly and returns its model.
 // profile: 0 = several columns (quick: row 0 f:q0 0..2, f:q1 0..1, row 1 one cell; thorough adds g:q0 and an optional row 1),
-// 1 = one column only (row 0 f:q0 0..2), 2 = two rows with f:q0 0..1 each. In the thorough tier every profile is 0.
+// 1 = one column only (row 0 f:q0 0..2), 2 = two rows with f:q0 0..1 each, 3 = row 0 f:q0 0..1 only. In the thorough tier every profile is 0.
 func c01Seed(s *server, m *mState, profile int) {
 	tbl := s.tables[vTable]
 	full := vBound("prestate-full", 0, 1)
@@ -345,6 +347,14 @@ func c01Seed(s *server, m *mState, profile int) {
 				}
 				if profile == 1 && !(r == 0 && f == 0 && q == 0) {
 					max = 0
+				}
+				if profile == 3 {
+					min = 0
+					if r == 0 && f == 0 && q == 0 {
+						max = 1
+					} else {
+						max = 0
+					}
 				}
 				if profile == 2 {
 					min = 0
@@ -403,14 +413,15 @@ func c01Setup(engName string, emptyQual bool) (*server, int64, *mState) {
 
 // c01Request issues one request of a chosen shape and returns the expected model.
 // shape: 0 = MutateRow with 1..2 mutations or MutateRows, 1 = MutateRow with exactly one mutation,
-// 2 = MutateRow with exactly two mutations, 3 = MutateRows (two entries), 4 = MutateRows (one entry, two mutations).
+// 2 = MutateRow with exactly two mutations, 3 = MutateRows (two entries), 4 = MutateRows (one entry, two mutations),
+// 5 = MutateRows (two entries; the first with two mutations, reduced mutation kinds).
 func c01Request(s *server, m *mState, nowMs int64, tag string, shape int) *mState {
 	nfam := vBound("family-choices", 1, 2)
 	kind := 0
 	switch shape {
 	case 0:
 		kind = vChoice("req.kind", 0, 1)
-	case 3, 4:
+	case 3, 4, 5:
 		kind = 1
 	}
 	if kind == 0 {
@@ -445,16 +456,24 @@ func c01Request(s *server, m *mState, nowMs int64, tag string, shape int) *mStat
 	for e := 0; e < nent; e++ {
 		r := vChoice("entry.row", 0, len(m.keys)-1)
 		n := 1
-		if shape == 4 {
+		if shape == 4 || (shape == 5 && e == 0) {
 			n = 2
-		} else if vBound("entrymuts", 1, 2) == 2 {
+		} else if shape != 5 && vBound("entrymuts", 1, 2) == 2 {
 			n = vChoice("entry.nmut", 1, 2)
 		}
 		post := cur.clone()
 		invalid := false
 		var muts []*btpb.Mutation
 		for i := 0; i < n; i++ {
-			mm := c01Mutation(m.quals, nowMs, nfam)
+			ks := 0
+			if shape == 5 {
+				// first entry: SetCell then any of {SetCell, ranged delete, delete row}; second entry: one SetCell
+				ks = 2
+				if e == 0 && i == 1 {
+					ks = 1
+				}
+			}
+			mm := c01MutationOf(m.quals, nowMs, nfam, ks)
 			muts = append(muts, mm.pb)
 			invalid = vOr(invalid, mm.invalid)
 			mm.apply(post, r)
@@ -513,6 +532,15 @@ func H_C01_step4() {
 	c01Compare(m2, vReadAll(s), "post")
 }
 
+// H_C01_step5: MutateRows with two entries, the first carrying two mutations (a failed entry must
+// leave no trace that a later entry on the same row could pick up).
+func H_C01_step5() {
+	s, nowMs, m := c01Setup("engine", false)
+	c01Seed(s, m, 3)
+	m2 := c01Request(s, m, nowMs, "step", 5)
+	c01Compare(m2, vReadAll(s), "post")
+}
+
 // H_C01_seq: empty table, two requests of any shape, a read after each (thorough tier).
 func H_C01_seq() {
 	s, nowMs, m := c01Setup("engine", true)
@@ -527,5 +555,6 @@ func init() {
 	vHarnesses["H_C01_step2"] = H_C01_step2
 	vHarnesses["H_C01_step3"] = H_C01_step3
 	vHarnesses["H_C01_step4"] = H_C01_step4
+	vHarnesses["H_C01_step5"] = H_C01_step5
 	vHarnesses["H_C01_seq"] = H_C01_seq
 }
